@@ -96,6 +96,11 @@ var errTextRe = regexp.MustCompile(`(?m)^err:[^\t\n]*`)
 
 func (c12) Run(c *fw.Ctx) {
 	r := c.Rng
+	if c.Env.State["c12_server_hung"] != nil {
+		// an earlier case of this worker convicted the server of not answering: do not spend 90 s per request again
+		c.Count("cases_skipped_after_server_hang", 1)
+		return
+	}
 	u, served, ok := workerServer(c)
 	if !ok {
 		return
@@ -171,6 +176,7 @@ func (c12) Run(c *fw.Ctx) {
 				cm.Process.Kill()
 			}
 			delete(c.Env.State, "server_url")
+			c.Env.State["c12_server_hung"] = true
 			return false
 		}
 	}
